@@ -47,6 +47,9 @@ pub struct G {
     next: usize,
     marks: i64,
     in_fn: Option<Value>,
+    /// > 0: the next request for an expression of some type is answered with a near-miss type once
+    near_miss: u32,
+    pub used_near_miss: bool,
 }
 
 const ELEM_TYPES: usize = 5;
@@ -115,6 +118,12 @@ impl G {
 
     /// expression of static type exactly int (as far as the generator can tell)
     fn int_expr(&mut self, d: usize) -> Value {
+        if self.near_miss > 0 && self.rng.chance(1, 6) {
+            self.near_miss = 0;
+            self.used_near_miss = true;
+            let other = self.near(&tint()).unwrap();
+            return hide(other.clone(), self.inhabitant(&other, false));
+        }
         let vs = self.vars_of(&tint());
         if d == 0 || self.rng.chance(1, 4) {
             return if !vs.is_empty() && self.rng.chance(2, 3) { var(&self.pick(&vs)) } else { int([0, 1, 2, 3, 5, -2][self.rng.below(6)]) };
@@ -192,8 +201,34 @@ impl G {
         }
     }
 
+    /// a type that is close to `ty` but does not match it (what a weakened checker might let through)
+    fn near(&mut self, ty: &Value) -> Option<Value> {
+        let k = ty["k"].as_str().unwrap();
+        Some(match k {
+            "int" => [tfloat(), tmulti(vec![tint(), tfloat()]), tstr(), tvoid()][self.rng.below(4)].clone(),
+            "float" => [tint(), tmulti(vec![tint(), tfloat()])][self.rng.below(2)].clone(),
+            "string" => [tint(), tarr(tstr())][self.rng.below(2)].clone(),
+            "bool" => tint(),
+            "array" => {
+                let e = &ty["e"];
+                if *e == tint() { [tarr(tfloat()), tarr(tmulti(vec![tint(), tfloat()])), tarr(tstr())][self.rng.below(3)].clone() }
+                else if *e == tfloat() { tarr(tint()) }
+                else if *e == tstr() { tarr(tint()) }
+                else { return None }
+            }
+            _ => return None,
+        })
+    }
+
     /// expression whose static type matches `ty`
     fn expr_of(&mut self, ty: &Value, d: usize) -> Value {
+        if self.near_miss > 0 && self.rng.chance(1, 3) {
+            if let Some(other) = self.near(ty) {
+                self.near_miss = 0;
+                self.used_near_miss = true;
+                return hide(other.clone(), self.inhabitant(&other, false));
+            }
+        }
         let vs = self.vars_of(ty);
         if !vs.is_empty() && self.rng.chance(1, 2) {
             return var(&self.pick(&vs));
@@ -470,6 +505,7 @@ impl G {
     }
 
     pub fn program(&mut self, size: usize) -> Vec<Value> {
+        self.used_near_miss = false;
         self.env.clear();
         self.next = 0;
         self.marks = 0;
@@ -500,13 +536,17 @@ impl G {
 pub fn run(args: &[String]) -> Value {
     let n: usize = args[0].parse().unwrap();
     let path = &args[1];
-    let mut g = G { rng: Rng::from_env(0x6e6), env: vec![], next: 0, marks: 0, in_fn: None };
+    let mut g = G { rng: Rng::from_env(0x6e6), env: vec![], next: 0, marks: 0, in_fn: None, near_miss: 0, used_near_miss: false };
     let mut w = std::io::BufWriter::new(std::fs::File::create(path).unwrap());
     use std::io::Write;
     for i in 0..n {
         let size = 2 + g.rng.below(5);
+        // every 5th program is a near-miss: one sub-expression gets a close but non-matching type; the checker is
+        // expected to refuse it, and if it does not, the run is judged by its events (negative case)
+        g.near_miss = if i % 5 == 4 { 1 } else { 0 };
         let prog = g.program(size);
-        writeln!(w, "{}", json!({"id": format!("gen-{i}"), "suite": "gen", "prog": prog})).unwrap();
+        let negative = g.used_near_miss;
+        writeln!(w, "{}", json!({"id": format!("gen-{i}"), "suite": "gen", "prog": prog, "negative": negative})).unwrap();
     }
     json!({"generated": n})
 }
